@@ -1,6 +1,7 @@
 import CJ.Drv.Loop
 import CJ.Drv.SctpConn
 import CJ.Drv.DtlsListener
+import CJ.Drv.AcceptLoop
 /-! Driver for C16: listener, SCTPConn, heartbeat filter, flow control, watchdog. -/
 open CJ.Drv
 
@@ -10,4 +11,5 @@ def main : IO Unit := runDriver fun
   | "hbsctp" :: args => SctpConn.handleHb args
   | "flow" :: args => SctpConn.handleFlow args
   | "wd" :: args => SctpConn.handleWd args
+  | "loop" :: args => AcceptLoop.handle args
   | _ => none
